@@ -458,6 +458,14 @@ func (p *DB) Reset() {
 	p.mu.Unlock()
 }
 
+// nonNegative reads a negative (advisory) capacity as none.
+func nonNegative(n int) int {
+	if n < 0 {
+		return 0
+	}
+	return n
+}
+
 // New creates a new initialized in-memory key/value DB. The capacity
 // is the initial key/value buffer capacity. The capacity is advisory,
 // not enforced.
@@ -471,7 +479,7 @@ func New(cmp comparer.BasicComparer, capacity int) *DB {
 		cmp:       cmp,
 		rnd:       rand.New(rand.NewSource(0xdeadbeef)),
 		maxHeight: 1,
-		kvData:    make([]byte, 0, capacity),
+		kvData:    make([]byte, 0, nonNegative(capacity)),
 		nodeData:  make([]int, 4+tMaxHeight),
 	}
 	p.nodeData[nHeight] = tMaxHeight
